@@ -8,7 +8,7 @@ use verif_harness::reqgen::*;
 use verif_harness::scenario::*;
 use verif_harness::*;
 
-fn x_accept() -> Expect {
+pub fn x_accept() -> Expect {
     Expect {
         accept: true,
         refuse: false,
@@ -18,7 +18,7 @@ fn x_accept() -> Expect {
     }
 }
 
-fn x_kind(k: u8, calls: u8) -> Expect {
+pub fn x_kind(k: u8, calls: u8) -> Expect {
     Expect {
         accept: false,
         refuse: true,
@@ -28,7 +28,7 @@ fn x_kind(k: u8, calls: u8) -> Expect {
     }
 }
 
-fn x_refuse() -> Expect {
+pub fn x_refuse() -> Expect {
     Expect {
         accept: false,
         refuse: true,
@@ -38,7 +38,7 @@ fn x_refuse() -> Expect {
     }
 }
 
-fn x_none() -> Expect {
+pub fn x_none() -> Expect {
     Expect {
         accept: false,
         refuse: false,
@@ -48,10 +48,10 @@ fn x_none() -> Expect {
     }
 }
 
-const K_INCOMPLETE: u8 = 7;
-const K_MISMATCH: u8 = 11;
+pub const K_INCOMPLETE: u8 = 7;
+pub const K_MISMATCH: u8 = 11;
 
-fn auth_mut<F: Fn(&str) -> String>(w: &mut Wire, f: F) {
+pub fn auth_mut<F: Fn(&str) -> String>(w: &mut Wire, f: F) {
     for (n, v) in w.headers.iter_mut() {
         if n.eq_ignore_ascii_case(b"authorization") {
             *v = f(&String::from_utf8_lossy(v)).into_bytes();
@@ -59,7 +59,7 @@ fn auth_mut<F: Fn(&str) -> String>(w: &mut Wire, f: F) {
     }
 }
 
-fn carrier_tag(p: &Plan) -> &'static str {
+pub fn carrier_tag(p: &Plan) -> &'static str {
     if p.query_carrier {
         "query_carrier"
     } else {
@@ -81,6 +81,16 @@ pub fn c03(o: &mut O, tier: &str, rng: &mut Rng) {
         let mut plan = if round == 0 || round == 2 { base_plan() } else { random_plan(rng) };
         plan.fold = false;
         plan.form = false;
+        if round == 2 {
+            plan.region = "fips-us-gov-west-1".to_string();
+            plan.service = "execute-api".to_string();
+        }
+        if round == 1 || round % 5 == 4 {
+            let rs = [("us-east-1-fips", "sts"), ("aws-global", "iam"), ("cn-north-1", "dynamodb"), ("us-iso-east-1", "monitoring"), ("us-gov-west-1-fips", "es"), ("eu-central-2", "s3")];
+            let (r, s) = rs[(round / 5) % rs.len()];
+            plan.region = r.to_string();
+            plan.service = s.to_string();
+        }
         if round % 3 == 1 {
             plan.query_carrier = true;
         }
@@ -147,6 +157,16 @@ pub fn c03(o: &mut O, tier: &str, rng: &mut Rng) {
                 v.replace('-', "_"),
                 v.replace('1', "l"),
             ];
+            // affixes that carry a meaning elsewhere in the ecosystem (endpoint pseudo-regions, dual-stack and
+            // FIPS service names) are part of the string here
+            out.push(format!("fips-{}", v));
+            out.push(format!("{}-fips", v));
+            if let Some(x) = v.strip_prefix("fips-") {
+                out.push(x.to_string());
+            }
+            if let Some(x) = v.strip_suffix("-fips") {
+                out.push(x.to_string());
+            }
             if v.len() > 1 {
                 out.push(v[..v.len() - 1].to_string());
                 out.push(v[1..].to_string());
@@ -346,7 +366,7 @@ pub fn c03(o: &mut O, tier: &str, rng: &mut Rng) {
 // ---------------------------------------------------------------------------------------------
 // C04
 
-fn render_time(t: i64, frac_ns: u32, style: u8) -> String {
+pub fn render_time(t: i64, frac_ns: u32, style: u8) -> String {
     let c = signer::compact_utc(t);
     match style {
         0 => c,
@@ -375,14 +395,14 @@ fn render_time(t: i64, frac_ns: u32, style: u8) -> String {
 }
 
 /// Styles of `render_time` that carry `frac_ns`.
-fn style_has_fraction(style: u8) -> bool {
+pub fn style_has_fraction(style: u8) -> bool {
     matches!(style, 3 | 4 | 7 | 10)
 }
 
-const N_STYLES: u8 = 14;
+pub const N_STYLES: u8 = 14;
 
 /// The instant `t` written as local time at `off_min` minutes east of UTC.
-fn render_offset(t: i64, off_min: i64, extended: bool, frac_ns: Option<u32>) -> String {
+pub fn render_offset(t: i64, off_min: i64, extended: bool, frac_ns: Option<u32>) -> String {
     let l = signer::compact_utc(t + off_min * 60);
     let sign = if off_min < 0 { '-' } else { '+' };
     let (oh, om) = (off_min.abs() / 60, off_min.abs() % 60);
@@ -483,11 +503,11 @@ pub fn c04(o: &mut O, tier: &str, rng: &mut Rng) {
 // ---------------------------------------------------------------------------------------------
 // C05
 
-fn mixed_case(s: &str, rng: &mut Rng) -> String {
+pub fn mixed_case(s: &str, rng: &mut Rng) -> String {
     s.chars().map(|c| if rng.chance(1, 2) { c.to_ascii_uppercase() } else { c }).collect()
 }
 
-fn satisfied(always: &[String], ifreq: &[String], prefixes: &[String], header_names: &[String], signed: &[String]) -> bool {
+pub fn satisfied(always: &[String], ifreq: &[String], prefixes: &[String], header_names: &[String], signed: &[String]) -> bool {
     let has = |n: &str| signed.iter().any(|s| s == n);
     if !(has("host") || has(":authority")) {
         return false;
@@ -1561,10 +1581,7 @@ fn inject_v(b: &Built, plan: &Plan, set: u32, vars: &[u8; 16], perr_sel: usize) 
         (D_PROVIDER, if v(D_PROVIDER) != 0 {
             4
         } else {
-            match perr {
-                ErrSpec::Sig(k) => k,
-                ErrSpec::Foreign => 2,
-            }
+            perr.kind()
         }),
         (D_SIGNATURE, 11),
     ];
@@ -1742,11 +1759,11 @@ pub fn c14(o: &mut O, tier: &str, rng: &mut Rng) {
         match (mode, &e) {
             (1, Some(err)) => {
                 p.ready_err = Some(err.clone());
-                x = x_kind(match err { ErrSpec::Sig(k) => *k, ErrSpec::Foreign => 2 }, 0);
+                x = x_kind(err.kind(), 0);
             }
             (2, Some(err)) => {
                 p.fail = Some(err.clone());
-                x = x_kind(match err { ErrSpec::Sig(k) => *k, ErrSpec::Foreign => 2 }, 1);
+                x = x_kind(err.kind(), 1);
             }
             (3, _) => {
                 // unknown access key: the provider's own refusal
@@ -1814,10 +1831,7 @@ pub fn c14(o: &mut O, tier: &str, rng: &mut Rng) {
                     (_, Some(err)) => err.clone(),
                     (_, None) => continue,
                 };
-                let kind = match &err {
-                    ErrSpec::Sig(k) => *k,
-                    ErrSpec::Foreign => 2,
-                };
+                let kind = err.kind();
                 let mut plan = base_plan();
                 plan.query_carrier = (ei + si) % 2 == 1;
                 match *sf {
@@ -2033,6 +2047,8 @@ pub fn c19(o: &mut O, tier: &str, rng: &mut Rng) {
         plan.fold = false;
         plan.query_carrier = false;
         plan.use_date_header = false;
+        // (this family places its own Date headers)
+        plan.extra_date = None;
         let b = build(&plan, &sp, rng, 0);
         let auth: Vec<u8> = b.wire.headers.iter().find(|h| h.0.eq_ignore_ascii_case(b"authorization")).unwrap().1.clone();
         let auth_s = String::from_utf8(auth.clone()).unwrap();
